@@ -252,7 +252,7 @@ func init() {
 		return nil
 	})
 	reg("time.After", func(fr *frame, args []value) value {
-		d := fr.i.concInt(args[0], "time.After")
+		d := fr.i.concDuration(args[0])
 		t := fr.i.px.sched.newTimer(d, true, "time.After")
 		t.ch.elemT = fr.i.prog.byPath["time"].Type("Time").Type()
 		return t.ch
@@ -267,6 +267,36 @@ func init() {
 	delete(intrinsics, "(*time.Location).get")
 	reg("time.(*Location).String", nil)
 	delete(intrinsics, "time.(*Location).String")
+}
+
+// concDuration: a symbolic timer duration is represented by one feasible value (timers only fire
+// at quiescence, so the value matters only relative to other pending timers).
+func (i *interpreter) concDuration(v value) int64 {
+	s, ok := v.(sym)
+	if !ok {
+		return asInt64(v)
+	}
+	px := i.px
+	px.res.Reached["engine:representative-timer-duration"] = true
+	var val uint64
+	if px.replaying() {
+		d := px.prefix[px.pos]
+		px.pos++
+		if d.K != 'r' {
+			px.abort(stEngineBug, "replay divergence: expected representative duration, trace has %v", d)
+		}
+		val = uint64(d.V)
+	} else {
+		r, m := px.solver.CheckModel(px.tc, nil, []*Term{s.t})
+		if r != Sat {
+			px.abort(stInconclusive, "solver unknown while choosing a representative duration")
+		}
+		val = m[s.t.id].Uint64()
+	}
+	px.res.Decisions++
+	px.trace = append(px.trace, Decision{'r', int64(val)})
+	px.assume(px.tc.Eq(s.t, px.tc.BV(kindWidth(s.k), val)))
+	return int64(val)
 }
 
 // makeTime builds a time.Time for virtual nanoseconds since the Unix epoch using time.Unix.
